@@ -79,6 +79,8 @@ def tool(policy_file, access_file, apply_rule, is_admin=False,
         access_data['project_id'] = access_data['project']['id']
     if access_data.get('system'):
         access_data['system_scope'] = 'all'
+        # Enforcer.enforce() mirrors the system scope into 'system'
+        access_data['system'] = access_data['system_scope']
     access_data['is_admin'] = is_admin
 
     with open(policy_file, "rb", 0) as p:
@@ -100,7 +102,13 @@ def tool(policy_file, access_file, apply_rule, is_admin=False,
 
     if apply_rule:
         key = apply_rule
-        rule = rules[apply_rule]
+        try:
+            rule = rules[apply_rule]
+        except KeyError:
+            # Neither the rule nor a default rule exists; the library fails
+            # closed in that case
+            print("failed: %s" % key)
+            return
         _try_rule(key, rule, target_data, access_data, enforcer)
         return
 
